@@ -109,3 +109,61 @@ def extra(binary, build, tier, rng):
         yield {"kind": "oracle", "build": build, "request": reqs[2 * t + 1], "impl": res[2 * t + 1], "model": "mean + sd*z%s = %s (fused) / %s (unfused), z = %s" % (", exponentiated," if kind == "lnorm" else "", cand[t][0], cand[t][1], FO.samples(res[2 * t])[0]),
                "oracle": "%s sample is not the z-score transform mean + sd*z%s of the standard-normal sample drawn from the same words (platform arithmetic, fused or unfused)" % ("LogNormal" if kind == "lnorm" else "Normal", " exponentiated" if kind == "lnorm" else "")}
     yield {"kind": "count", "what": "zscore-transform-triples", "n": len(idx)}
+    # SENSITIVE z-scores: where evaluating mean + sd*z through a wider type and rounding afterwards differs from evaluating it in the sample's
+    # type (about one f32 z in 2^30; found by a native search, harness `zfind`, on all cores). For each, a first word is crafted that makes
+    # StandardNormal return exactly that z (rectangle of layer 1), and the sample must be from_zscore(z) and mean + sd*z as above.
+    if build == "release":
+        from concurrent.futures import ThreadPoolExecutor
+        import struct
+        iters = 1_500_000_000 if tier == "quick" else 12_000_000_000
+        params = [(1.0e6, 2.74), (70.5, 0.12), (-12345.678, 0.333), (3.0e4, 1.7)]
+        freq = ["zfind a=%d b=%d iters=%d seed=%d max=4" % (G.f64b(params[j % 4][0]), G.f64b(params[j % 4][1]), iters, rng.u64()) for j in range(16)]
+        with ThreadPoolExecutor(max_workers=16) as ex:
+            fouts = list(ex.map(lambda q: C.run_lines(binary, ["run"], [q], timeout=7200)[1][0], freq))
+        X = G.tables()["ZIG_NORM_X"]
+        f32 = lambda x: struct.unpack("<f", struct.pack("<f", x))[0]
+        cands = []
+        for j, o in enumerate(fouts):
+            for zb in [int(x) for x in o[2:].split(",") if x]:
+                z = struct.unpack("<f", struct.pack("<I", zb))[0]
+                if not (abs(z) < X[2] * 0.999):
+                    continue
+                m0 = int((z / X[1] + 1.0) * (1 << 51))
+                word = None
+                for dm in range(0, 4096):
+                    for mm in (m0 + dm, m0 - dm):
+                        if 0 <= mm < (1 << 52):
+                            u = (1.0 + mm / float(1 << 52)) * 2.0 - 3.0
+                            if f32(u * X[1]) == z:
+                                word = G.zig_bits(1, mm, 0)
+                                break
+                    if word is not None:
+                        break
+                if word is not None:
+                    cands.append((params[j % 4], zb, word))
+        sreq = []
+        for (a, b), zb, word in cands:
+            sreq += ["zig kind=norm w=32 n=1 words=%d" % word,
+                     "norm w=32 ctor=new a=%d b=%d via=try n=1 words=%d" % (G.f32b(a), G.f32b(b), word),
+                     "norm w=32 ctor=new a=%d b=%d via=try n=1 z=%d words=" % (G.f32b(a), G.f32b(b), zb),
+                     "fp op=fma w=32 a=%d b=%d c=%d" % (G.f32b(b), zb, G.f32b(a)), "fp op=mul w=32 a=%d b=%d" % (G.f32b(b), zb)]
+        rc, sres, err = C.run_lines(binary, ["run"], sreq) if sreq else (0, [], "")
+        areq = ["fp op=add w=32 a=%s b=%d" % (sres[5 * i + 4], G.f32b(cands[i][0][0])) for i in range(len(cands))]
+        rc, ares, err = C.run_lines(binary, ["run"], areq) if areq else (0, [], "")
+        for i, ((a, b), zb, word) in enumerate(cands):
+            zs = FO.samples(sres[5 * i])
+            if not zs or int(zs[0]) != zb:
+                continue                                   # the crafted word does not give this z on this implementation: not judged
+            st = [x for x in sres[5 * i + 1].split() if x.startswith("ok:")]
+            zt = [x for x in sres[5 * i + 2].split() if x.startswith("z:")]
+            if not st or not zt:
+                continue
+            got = st[0].split(":")[1]
+            if got != zt[0][2:]:
+                yield {"kind": "oracle", "build": build, "request": sreq[5 * i + 1], "impl": sres[5 * i + 1], "model": sres[5 * i + 2],
+                       "oracle": "Normal<f32> sample differs from from_zscore(z) of the standard-normal sample drawn from the same word (z bits %d, a z-score on which evaluation through f64 rounds differently)" % zb}
+            elif got not in (sres[5 * i + 3], ares[i]):
+                yield {"kind": "oracle", "build": build, "request": sreq[5 * i + 1], "impl": sres[5 * i + 1], "model": "fused %s unfused %s" % (sres[5 * i + 3], ares[i]),
+                       "oracle": "Normal<f32> sample is not mean + sd*z (fused or unfused, platform arithmetic in f32) for z bits %d" % zb}
+        yield {"kind": "count", "what": "sensitive-zscores-tested", "n": len(cands)}
+        yield {"kind": "count", "what": "sensitive-zscore-search-iterations", "n": iters * 16}
